@@ -10,6 +10,7 @@ use crate::{
 use serde::ser::{SerializeMap, Serializer as _};
 use serde_json::Serializer;
 use std::{
+    borrow::Cow,
     collections::BTreeMap,
     fmt::{self, Write},
 };
@@ -388,7 +389,9 @@ impl<'a> FormatFields<'a> for JsonFields {
         // then, we could store fields as JSON values, and add to them
         // without having to parse and re-serialize.
         let mut new = String::new();
-        let map: BTreeMap<&'_ str, serde_json::Value> =
+        // Note that the keys cannot be borrowed from `current`: a field name
+        // that needs escaping in JSON does not appear verbatim in the string.
+        let map: BTreeMap<Cow<'_, str>, serde_json::Value> =
             serde_json::from_str(current).map_err(|_| fmt::Error)?;
         let mut v = JsonVisitor::new(&mut new);
         v.values = map;
@@ -405,7 +408,7 @@ impl<'a> FormatFields<'a> for JsonFields {
 /// [visitor]: crate::field::Visit
 /// [`MakeVisitor`]: crate::field::MakeVisitor
 pub struct JsonVisitor<'a> {
-    values: BTreeMap<&'a str, serde_json::Value>,
+    values: BTreeMap<Cow<'a, str>, serde_json::Value>,
     writer: &'a mut dyn Write,
 }
 
@@ -443,7 +446,7 @@ impl crate::field::VisitOutput<fmt::Result> for JsonVisitor<'_> {
             let mut ser_map = serializer.serialize_map(None)?;
 
             for (k, v) in self.values {
-                ser_map.serialize_entry(k, &v)?;
+                ser_map.serialize_entry(&*k, &v)?;
             }
 
             ser_map.end()
@@ -461,36 +464,36 @@ impl field::Visit for JsonVisitor<'_> {
     /// Visit a double precision floating point value.
     fn record_f64(&mut self, field: &Field, value: f64) {
         self.values
-            .insert(field.name(), serde_json::Value::from(value));
+            .insert(field.name().into(), serde_json::Value::from(value));
     }
 
     /// Visit a signed 64-bit integer value.
     fn record_i64(&mut self, field: &Field, value: i64) {
         self.values
-            .insert(field.name(), serde_json::Value::from(value));
+            .insert(field.name().into(), serde_json::Value::from(value));
     }
 
     /// Visit an unsigned 64-bit integer value.
     fn record_u64(&mut self, field: &Field, value: u64) {
         self.values
-            .insert(field.name(), serde_json::Value::from(value));
+            .insert(field.name().into(), serde_json::Value::from(value));
     }
 
     /// Visit a boolean value.
     fn record_bool(&mut self, field: &Field, value: bool) {
         self.values
-            .insert(field.name(), serde_json::Value::from(value));
+            .insert(field.name().into(), serde_json::Value::from(value));
     }
 
     /// Visit a string value.
     fn record_str(&mut self, field: &Field, value: &str) {
         self.values
-            .insert(field.name(), serde_json::Value::from(value));
+            .insert(field.name().into(), serde_json::Value::from(value));
     }
 
     fn record_bytes(&mut self, field: &Field, value: &[u8]) {
         self.values
-            .insert(field.name(), serde_json::Value::from(value));
+            .insert(field.name().into(), serde_json::Value::from(value));
     }
 
     fn record_debug(&mut self, field: &Field, value: &dyn fmt::Debug) {
@@ -499,12 +502,14 @@ impl field::Visit for JsonVisitor<'_> {
             #[cfg(feature = "tracing-log")]
             name if name.starts_with("log.") => (),
             name if name.starts_with("r#") => {
-                self.values
-                    .insert(&name[2..], serde_json::Value::from(format!("{:?}", value)));
+                self.values.insert(
+                    name[2..].into(),
+                    serde_json::Value::from(format!("{:?}", value)),
+                );
             }
             name => {
                 self.values
-                    .insert(name, serde_json::Value::from(format!("{:?}", value)));
+                    .insert(name.into(), serde_json::Value::from(format!("{:?}", value)));
             }
         };
     }
